@@ -6,6 +6,9 @@
 #include <string>
 #include <vector>
 #include <stdint.h>
+#include <random>
+// std::random_device is an environment input: both the engine (--random-device) and this runtime return the value of VP_RANDOM_DEVICE
+namespace std { void random_device::_M_init(const std::string&) {} void random_device::_M_fini() {} random_device::result_type random_device::_M_getval() { const char* e = getenv("VP_RANDOM_DEVICE"); return e ? (result_type)strtoul(e, 0, 10) : 0; } }
 extern "C" void harness();
 static std::vector<std::pair<std::string, uint64_t>> g_in; static size_t g_idx = 0; static uint64_t g_digest = 1469598103934665603ULL; static int g_asserts = 0, g_failed = 0;
 static void dig(const void* p, size_t n) { const unsigned char* c = (const unsigned char*)p; for (size_t i = 0; i < n; i++) { g_digest ^= c[i]; g_digest *= 1099511628211ULL; } }
